@@ -467,6 +467,29 @@ Definition ret_of_rv (st : state) (stored : pos) (rv : rvalue) : ret :=
 Fixpoint repeat_list {A} (n : nat) (l : list A) : list A :=
   match n with O => [] | S m => l ++ repeat_list m l end.
 
+(* clear(): every item is removed; notified (when anything was removed) like any other change *)
+Definition clear_core (sc : scope) (st : state) (ps : pos) (its : list (key * node)) : state :=
+  let st1 := detach_all (update_at st ps (set_items [])) its in
+  match its with
+  | [] => st1
+  | _ => if notify_on sc then fix_chain st1 ps else st1
+  end.
+(* reverse() / sort(): the items are permuted and re-indexed; notified when some position holds another object *)
+Definition same_item (a b : node) : bool :=
+  match a, b with
+  | Leaf x, Leaf y => leaf_is x y
+  | Node i _ _ _ _ _, Node j _ _ _ _ _ => N.eqb i j
+  | _, _ => false
+  end.
+Fixpoint all_same (a b : list (key * node)) : bool :=
+  match a, b with
+  | x :: a', y :: b' => same_item (snd x) (snd y) && all_same a' b'
+  | _, _ => true
+  end.
+Definition reorder_core (sc : scope) (st : state) (ps : pos) (tpth : list key) (its its' : list (key * node)) : state :=
+  let st1 := update_at st ps (set_items (renum tpth its')) in
+  if negb (all_same its its') && notify_on sc then fix_chain st1 ps else st1.
+
 (* --- one step --------------------------------------------------------------------------------------------------------- *)
 Definition find_index {A} (f : A -> bool) (l : list A) : option nat :=
   (fix go (l : list A) (i : nat) : option nat :=
@@ -516,19 +539,18 @@ Definition exec (sc : scope) (st : state) (ps : pos) (tid : N) (tk : kind) (tpth
           (fst (ldel_core sc st ps idx), Ok RNone)
       end
   | LClear =>
-      if sl then (st, Err EWrite) else
-      (detach_all (update_at st ps (set_items [])) its, Ok RNone)
+      if sl then (st, Err EWrite) else (clear_core sc st ps its, Ok RNone)
   | LReverse =>
-      if sl then (st, Err EWrite) else
-      (update_at st ps (set_items (renum tpth (rev its))), Ok RNone)
+      if sl then (st, Err EWrite) else (reorder_core sc st ps tpth its (rev its), Ok RNone)
   | LSort ks rv =>
       if sl then (st, Err EWrite) else
-      (update_at st ps (set_items (renum tpth (map snd (stable_sort rv (zip_keys ks its))))), Ok RNone)
+      (reorder_core sc st ps tpth its (map snd (stable_sort rv (zip_keys ks its))), Ok RNone)
   | LIMul m =>
       if sl then (st, Err EWrite) else
-      if m <=? 0 then (detach_all (update_at st ps (set_items [])) its, Ok RNone)
+      if m <=? 0 then (clear_core sc st ps its, Ok RNone)
       else
-        repeat_extend sc ps (map (fun kv => rv_of_item (snd kv)) its) (Z.to_nat (m - 1)) st
+        (* one extend with the original items repeated m - 1 times: one notification *)
+        extend_core sc st ps (repeat_list (Z.to_nat (m - 1)) (map (fun kv => rv_of_item (snd kv)) its))
   | LAdd rvs =>
       (* self.copy() then extend on the copy: the copy is unsealed, so only as_sealed(True) refuses *)
       if treats_as_sealed sc default_flags then (st, Err EWrite) else
@@ -579,11 +601,11 @@ Definition exec (sc : scope) (st : state) (ps : pos) (tid : N) (tk : kind) (tpth
       | [] => (st, Err EKey)
       | (k, old) :: _ =>
           let st1 := add_detached (update_at st ps (set_items (removelast its))) old in
-          (st1, Ok (RKV k (ret_item st1 old)))
+          let st2 := if notify_on sc then fix_chain st1 ps else st1 in
+          (st2, Ok (RKV k (ret_item st2 old)))
       end
   | DClear =>
-      if sl then (st, Err EWrite) else
-      (detach_all (update_at st ps (set_items [])) its, Ok RNone)
+      if sl then (st, Err EWrite) else (clear_core sc st ps its, Ok RNone)
   | DSetDefault k rv =>
       match assoc k its with
       | Some old =>
